@@ -371,6 +371,16 @@ def check(ctx: Ctx) -> None:
     # the progress display switched on (verbose=True, the default of fit()): the same protocol, with and without validation
     stale_cfgs += [{"k": k, "n": 2, "ntimes": nt, "validation": v, "optclass": oc, "lazy": False, "init": "default", "pre_eval": False, "extra": False, "stale": False, "verbose": True}
                    for k in (0, 2, 3) for nt in (1, 2) for v in (True, False) for oc in (True, False)]
+    # batches on which the criterion is not finite (an overflowing utility): the protocol is the same - k steps on the gradient of
+    # each batch.  (The criterion below is +inf with a FINITE gradient, so that the parameters stay comparable numbers.)
+    from pfhedge.nn import HedgeLoss
+
+    class InfLoss(HedgeLoss):
+        def forward(self, input, target=0.0):
+            return -(input - target).mean(0) + float("inf")
+    inf_cfgs = [{"k": k, "n": 2, "ntimes": 1, "validation": v, "optclass": oc, "lazy": False, "init": "default", "pre_eval": False, "extra": False, "stale": False, "nonfinite": True}
+                for k in (1, 3) for v in (True, False) for oc in (True, False)]
+    stale_cfgs += inf_cfgs
     for c_ in cfgs + extra_cfgs + hedge_cfgs:
         c_.setdefault("stale", False)
     traces = []
@@ -381,6 +391,8 @@ def check(ctx: Ctx) -> None:
         feats, crit = setups[si]
         if cfg["extra"]:
             crit = oce
+        if cfg.get("nonfinite"):
+            crit = InfLoss
         try:
             t = run_fit(cfg, ctx.seed * 1000 + i, feats, crit)
         except MachineryError:
